@@ -18,9 +18,11 @@ impl ThreadPool {
             final(w).trace == old(w).trace.push(Event::PoolJoin),
     { unimplemented!() }
 }
-impl Config {
+/// num_cpus::get(): at least one
+pub mod num_cpus {
+    #[allow(unused_imports)] use super::*;
     #[verifier::external_body]
-    pub fn num_workers(&self) -> (r: usize) { unimplemented!() }
+    pub fn get() -> (r: usize) ensures r >= 1 { unimplemented!() }
 }
 
 /// what a block job may assume when it runs (proved by the dispatcher at queue time)
